@@ -190,9 +190,17 @@ func Payloads(t *rapid.T, o Opts) []model.Payload {
 	case 1:
 		n = 1
 	case 2:
-		n = rapid.IntRange(2, 5).Draw(t, "npayloads")
+		hi := 5
+		if hi > o.MaxPayloads {
+			hi = o.MaxPayloads
+		}
+		n = rapid.IntRange(minInt(2, hi), hi).Draw(t, "npayloads")
 	case 3:
-		n = rapid.IntRange(6, o.MaxPayloads).Draw(t, "npayloads")
+		lo := 6
+		if lo > o.MaxPayloads {
+			lo = o.MaxPayloads
+		}
+		n = rapid.IntRange(lo, o.MaxPayloads).Draw(t, "npayloads")
 	default:
 		n = -1 // all kinds once, shuffled
 	}
@@ -569,4 +577,11 @@ func RawBytes(t *rapid.T, label string, max int) []byte {
 		n := rapid.IntRange(0, max).Draw(t, label+".n")
 		return Fill(t, label, n)
 	}
+}
+
+func minInt(a, b int) int {
+	if a < b {
+		return a
+	}
+	return b
 }
